@@ -591,6 +591,11 @@ func (p *partition) newSubscribeLoop(ctx context.Context, groupID string, sub *s
 				msgValue = decryptedMsg
 			}
 
+			// The NATS subjects the message was received with are not
+			// necessarily valid UTF-8, which gRPC refuses to marshal into a
+			// string field. Replace the invalid bytes in the string fields so
+			// the message can still be delivered. The headers carry the
+			// subjects as they were received.
 			var (
 				msg = &client.Message{
 					Stream:       p.Stream,
@@ -600,8 +605,8 @@ func (p *partition) newSubscribeLoop(ctx context.Context, groupID string, sub *s
 					Value:        msgValue,
 					Timestamp:    timestamp,
 					Headers:      headers,
-					Subject:      string(headers["subject"]),
-					ReplySubject: string(headers["reply"]),
+					Subject:      strings.ToValidUTF8(string(headers["subject"]), "\uFFFD"),
+					ReplySubject: strings.ToValidUTF8(string(headers["reply"]), "\uFFFD"),
 				}
 			)
 			select {
